@@ -14,7 +14,8 @@ Inductive pschema :=
 | PEnum (vals : list str)        (* string enum -> class E(str, Enum) *)
 | PArr (items : pschema)         (* items: scalar / enum / reference *)
 | PRef (c : N)                   (* $ref to / inline object schema c -> dataclass c *)
-| PSelf (c : N)                  (* $ref to the schema being generated: rendered as a quoted name *)
+| PSelf (c : N)                  (* $ref to the schema being generated: rendered as a quoted name, which the
+                                    registration walk resolves (get_type_hints) and hands to cattrs *)
 | PMap (v : pschema).            (* object with only `additionalProperties: v` (inline, or $ref to a named map
                                     schema): a generated wrapper class around dict[str, v] *)
 
@@ -54,7 +55,7 @@ Fixpoint resolve (p : pschema) : ty :=
   | PArr (PEnum _) => TList TStr     (* an inline enum in array items is not promoted to an Enum class: plain str *)
   | PArr items => TList (resolve items)
   | PRef c => TData c
-  | PSelf c => TFwd c
+  | PSelf c => TData c
   | PMap v => TWrap (resolve v)
   end.
 
@@ -141,21 +142,3 @@ Section Gen.
        c_dump := match names with [] => None
                  | _ => Some (isort (fun a b => str_leb (fst a) (fst b)) (map (fun wn => (snd wn, fst wn)) names)) end |}.
 End Gen.
-
-(* executable guards of the known findings *)
-Fixpoint ty_has_unhooked (T : ty) : bool :=
-  match T with
-  | TUuid | TTime => true
-  | TList X | TDict X | TOpt X | TWrap X => ty_has_unhooked X
-  | _ => false
-  end.
-Fixpoint ty_has_fwd (T : ty) : bool :=
-  match T with
-  | TFwd _ => true
-  | TList X | TDict X | TOpt X | TWrap X => ty_has_fwd X
-  | _ => false
-  end.
-Definition guard_F03a (ct : list cls) : bool :=
-  negb (existsb (fun k => existsb (fun f => ty_has_unhooked (f_ty f)) (c_fields k)) ct).
-Definition guard_F03c (ct : list cls) : bool :=
-  negb (existsb (fun k => existsb (fun f => ty_has_fwd (f_ty f)) (c_fields k)) ct).
